@@ -161,8 +161,8 @@ Proof.
   destruct p as [| | | |seen [n|]| | | |]; auto.
 Qed.
 
-Lemma init_inv s0 ws progs ks :
-  rank s0 < 5 -> Forall (fun p => wpc_initial p = true) ws -> Inv (mk_init_k s0 ws progs ks).
+Lemma init_inv s0 ws progs ks r :
+  rank s0 < 5 -> Forall (fun p => wpc_initial p = true) ws -> Inv (mk_init_k s0 ws progs ks r).
 Proof.
   intros Hs Hw. constructor; unfold mk_init_k, gh0k; prj.
   - rewrite sumf_zero.
@@ -772,7 +772,7 @@ Proof.
   apply IH. apply InvS_step; auto.
 Qed.
 
-Lemma InvS_init P s0 ws ks : rank s0 < 5 -> exists t, InvS P (mk_init_k s0 ws [P] ks) t.
+Lemma InvS_init P s0 ws ks r : rank s0 < 5 -> exists t, InvS P (mk_init_k s0 ws [P] ks r) t.
 Proof.
   intros H. exists (init_thread P). constructor; unfold mk_init_k, gh0k, init_thread; prj; simpl; auto.
   - congruence.
@@ -877,7 +877,7 @@ Qed.
 Lemma kids_inv_run ls s : kids_inv (gh s) -> kids_inv (gh (run ls s)).
 Proof. revert s; induction ls as [|l r IH]; intros s K; simpl; auto. apply IH, kids_inv_step; auto. Qed.
 
-Lemma kids_inv_init s0 ws progs ks : kids_inv (gh (mk_init_k s0 ws progs ks)).
+Lemma kids_inv_init s0 ws progs ks r : kids_inv (gh (mk_init_k s0 ws progs ks r)).
 Proof. unfold kids_inv, mk_init_k, gh0k; prj. lia. Qed.
 
 Lemma fully_stopped_at c sup s t :
@@ -927,7 +927,7 @@ Qed.
 Definition init_ok (s0 : stat) (ws : list wpc) : Prop :=
   rank s0 < 5 /\ Forall (fun p => wpc_initial p = true) ws.
 
-Lemma reach_inv_k s0 ws progs ks ls : init_ok s0 ws -> Inv (run ls (mk_init_k s0 ws progs ks)).
+Lemma reach_inv_k s0 ws progs ks r ls : init_ok s0 ws -> Inv (run ls (mk_init_k s0 ws progs ks r)).
 Proof. intros [H1 H2]. apply Inv_run. apply init_inv; auto. Qed.
 
 Lemma reach_inv s0 ws progs ls : init_ok s0 ws -> Inv (run ls (mk_init s0 ws progs)).
@@ -970,16 +970,16 @@ Proof.
   exact (Forall_nth _ _ _ _ (iW _ I) E).
 Qed.
 
-Lemma early_return_full s0 ws c sup ks ls w :
+Lemma early_return_full s0 ws c sup ks r ls w :
   init_ok s0 ws ->
-  let s := run ls (scenario_init_k s0 ws c sup ks) in
+  let s := run ls (scenario_init_k s0 ws c sup ks r) in
   (nth_error (wpcs s) w = Some WDone \/ nth_error (wpcs s) w = Some WJDone) ->
   fully_stopped (want_ps_of c) (want_sup_of c sup) (snapshot s) = true.
 Proof.
   intros H s E. unfold scenario_init_k in *.
-  pose proof (reach_inv_k s0 ws [exit_prog c sup] ks ls H) as I.
-  destruct (InvS_run (exit_prog c sup) ls _ (InvS_init _ s0 ws ks (proj1 H))) as (t & IS).
-  pose proof (kids_inv_run ls _ (kids_inv_init s0 ws [exit_prog c sup] ks)) as KI.
+  pose proof (reach_inv_k s0 ws [exit_prog c sup] ks r ls H) as I.
+  destruct (InvS_run (exit_prog c sup) ls _ (InvS_init _ s0 ws ks r (proj1 H))) as (t & IS).
+  pose proof (kids_inv_run ls _ (kids_inv_init s0 ws [exit_prog c sup] ks r)) as KI.
   fold s in I, IS, KI.
   apply (fully_stopped_at c sup s t IS KI).
   destruct E as [E|E].
@@ -1243,33 +1243,33 @@ Proof.
   destruct (terminal p); simpl; auto.
 Qed.
 
-Lemma oracle_sound s0 ws c sup ks ls :
+Lemma oracle_sound s0 ws c sup ks r ls :
   init_ok s0 ws ->
-  check_C06 (want_ps_of c) (want_sup_of c sup) false (observe ls (scenario_init_k s0 ws c sup ks)) = true.
+  check_C06 (want_ps_of c) (want_sup_of c sup) false (observe ls (scenario_init_k s0 ws c sup ks r)) = true.
 Proof.
   intros H. unfold check_C06, observe, scenario_init_k.
-  pose proof (run_obs_snd ls (mk_init_k s0 ws [exit_prog c sup] ks)) as Es.
-  pose proof (run_obs_ok c sup false ls (mk_init_k s0 ws [exit_prog c sup] ks)
-               (init_inv _ _ _ ks (proj1 H) (proj2 H)) (InvS_init _ s0 ws ks (proj1 H)) (kids_inv_init _ _ _ ks)) as Ok.
-  pose proof (nondec_run ls (mk_init_k s0 ws [exit_prog c sup] ks) 0 0 ltac:(lia)) as Nd.
-  destruct (run_obs ls (mk_init_k s0 ws [exit_prog c sup] ks)) as [o s']; simpl in *. subst s'.
+  pose proof (run_obs_snd ls (mk_init_k s0 ws [exit_prog c sup] ks r)) as Es.
+  pose proof (run_obs_ok c sup false ls (mk_init_k s0 ws [exit_prog c sup] ks r)
+               (init_inv _ _ _ ks r (proj1 H) (proj2 H)) (InvS_init _ s0 ws ks r (proj1 H)) (kids_inv_init _ _ _ ks r)) as Ok.
+  pose proof (nondec_run ls (mk_init_k s0 ws [exit_prog c sup] ks r) 0 0 ltac:(lia)) as Nd.
+  destruct (run_obs ls (mk_init_k s0 ws [exit_prog c sup] ks r)) as [o s']; simpl in *. subst s'.
   rewrite forallb_app, Ok, pending_ok, Nd. reflexivity.
 Qed.
 
-Lemma oracle_sound_complete s0 ws c sup ks ls :
+Lemma oracle_sound_complete s0 ws c sup ks r ls :
   init_ok s0 ws ->
-  let s := run ls (scenario_init_k s0 ws c sup ks) in
+  let s := run ls (scenario_init_k s0 ws c sup ks r) in
   threads_done s = true -> status s = Stopped ->
   (forall w p, nth_error (wpcs s) w = Some p -> can_move s p = false) ->
-  check_C06 (want_ps_of c) (want_sup_of c sup) true (observe ls (scenario_init_k s0 ws c sup ks)) = true.
+  check_C06 (want_ps_of c) (want_sup_of c sup) true (observe ls (scenario_init_k s0 ws c sup ks r)) = true.
 Proof.
   intros H s D St Q. unfold check_C06, observe, scenario_init_k in *.
-  pose proof (run_obs_snd ls (mk_init_k s0 ws [exit_prog c sup] ks)) as Es.
-  pose proof (run_obs_ok c sup true ls (mk_init_k s0 ws [exit_prog c sup] ks)
-               (init_inv _ _ _ ks (proj1 H) (proj2 H)) (InvS_init _ s0 ws ks (proj1 H)) (kids_inv_init _ _ _ ks)) as Ok.
-  pose proof (nondec_run ls (mk_init_k s0 ws [exit_prog c sup] ks) 0 0 ltac:(lia)) as Nd.
-  pose proof (reach_inv_k s0 ws [exit_prog c sup] ks ls H) as I.
-  destruct (run_obs ls (mk_init_k s0 ws [exit_prog c sup] ks)) as [o s']; simpl in *. subst s'.
+  pose proof (run_obs_snd ls (mk_init_k s0 ws [exit_prog c sup] ks r)) as Es.
+  pose proof (run_obs_ok c sup true ls (mk_init_k s0 ws [exit_prog c sup] ks r)
+               (init_inv _ _ _ ks r (proj1 H) (proj2 H)) (InvS_init _ s0 ws ks r (proj1 H)) (kids_inv_init _ _ _ ks r)) as Ok.
+  pose proof (nondec_run ls (mk_init_k s0 ws [exit_prog c sup] ks r) 0 0 ltac:(lia)) as Nd.
+  pose proof (reach_inv_k s0 ws [exit_prog c sup] ks r ls H) as I.
+  destruct (run_obs ls (mk_init_k s0 ws [exit_prog c sup] ks r)) as [o s']; simpl in *. subst s'.
   fold s in Nd, I |- *.
   assert (PN : pending_from 0 (wpcs s) (snapshot s) = []).
   { apply pending_none. intros p Hp. apply In_nth_error in Hp as (w & Hw).
